@@ -19,7 +19,8 @@ ASSUMPTIONS = ["families are recognised by the public base classes YesNoResponse
                "for a missing or garbled answer a named bit of a bitmap response must not read as set (None is what "
                "the library documents); the text only forbids MissingResponse/ResponseError escaping from str()"]
 EXHAUSTIVE = {"quick": True, "thorough": True}
-REQUIRED_ANCHORS = {"all": ["Response.__init__", "classes", "outcomes_checked", "str_checked", "bad_args_checked"]}
+REQUIRED_ANCHORS = {"all": ["Response.__init__", "classes", "outcomes_checked", "str_checked", "bad_args_checked",
+                            "rereads_checked", "bit_tables_compared"]}
 SHARD_TIMEOUT = {"quick": 300, "thorough": 600}
 
 
@@ -113,6 +114,18 @@ def check_outcome(cls, fam, kind, n, res):
                 bad(f"value is {v!r} for a missing/garbled answer; expected a non-integer marker that no clean frame yields")
     elif fam == "bitmap":
         bits = list(cls.bits)
+        from spec import response_bits
+        row = response_bits.BITS.get(tag)
+        if row is None and cls.bits:
+            res.observe("bitmap-class-without-spec-row", tag)
+        elif row is not None:
+            res.hit("bit_tables_compared")
+            if [b for b in bits] + [None] * (8 - len(bits)) != list(row) + [None] * (8 - len(row)):
+                k = next((i for i in range(8) if (bits + [None] * 8)[i] != (list(row) + [None] * 8)[i]), 0)
+                res.violation(f"C06/bitmap/bit-table/{tag}", f"{tag}: bit {k} is named {(bits + [None] * 8)[k]!r}, the answer's table in the "
+                              f"standard names it {(list(row) + [None] * 8)[k]!r}", wit)
+                return
+            bits = list(row)
         try:
             status = ("ok", r.status)
         except Exception as e:
@@ -192,6 +205,28 @@ def check_outcome(cls, fam, kind, n, res):
                      (fam == "enum-custom" and st == "ok" and not isinstance(v, enum.Enum) and not isinstance(v, int))
                 if not ok:
                     bad(f"value gave {v!r} for a garbled answer; expected ResponseError")
+    # reading is idempotent: a verdict reported once is the verdict of every later read, also after str()
+    def same(a, b):
+        return (a[0] == b[0] == "exc" and type(a[1]) is type(b[1])) or (a[0] == b[0] == "ok" and (a[1] is b[1] or a[1] == b[1]))
+    res.hit("rereads_checked")
+    again = val()
+    if not same((st, v), again):
+        res.violation(f"C06/reread/{fam}/{kind}", f"{tag} on {outcome_name(kind, n)}: first read of .value gave {v!r}, the second {again[1]!r}", wit)
+    try:
+        r2 = cls(arg)
+        try:
+            str(r2)
+        except Exception:
+            pass
+        try:
+            after = ("ok", r2.value)
+        except Exception as e:
+            after = ("exc", e)
+        if not same((st, v), after) and not (st == "ok" and v is arg and after == ("ok", arg)):
+            res.violation(f"C06/reread/{fam}/{kind}", f"{tag} on {outcome_name(kind, n)}: .value gives {v!r} on a fresh object but {after[1]!r} "
+                          "after the object was rendered as text", wit)
+    except Exception:
+        pass
     # text rendering is total w.r.t. MissingResponse / ResponseError
     res.hit("str_checked")
     try:
